@@ -6,7 +6,10 @@
 //! add one call argument, unknown field, unknown named argument, delete one token, put a bad escape into a
 //! string literal} × 7 prefix variants that put non-ASCII text before the error site {none, a `// é` line, a
 //! `// 日本語` line, a string literal with 1 / 7 non-ASCII chars on the line above, the same two on the same
-//! line before the site}.
+//! line before the site} + up to 3 in-literal variants: when the site lies inside, or on the same line after, a
+//! single-line string literal, `é` / `日本` is put at the start of THAT literal's content (so a span computed
+//! relative to the literal's start has non-ASCII text between the literal's start and the site: `"é\q…"`,
+//! `'日本\q…'`), and for the bad-escape mutation the escaped character itself is made non-ASCII (`\é`).
 //!
 //! Oracle, for every diagnostic of `check_lsp(..).errors()` (no hand-written expectations):
 //!  (a) the primary range has start ≤ end, end ≤ byte length of the file it names, both ends on UTF-8 char
@@ -35,7 +38,7 @@ const THOROUGH_BUDGET_CORE_S: f64 = 7000.0;
 /// measured CPU cost of one error mutation (≈ 13 analyses)
 const MUT_US: f64 = 170_000.0;
 const CHUNK: usize = 24;
-const NVAR: usize = 7;
+const NVAR: usize = 10;
 const PER_UNIT_CAP: i64 = 4;
 const VARIANTS: [&str; NVAR] = [
     "no prefix",
@@ -45,7 +48,48 @@ const VARIANTS: [&str; NVAR] = [
     "string literal \"日本語テキスト\" on the line above",
     "string literal \"é\" on the same line before the site",
     "string literal \"日本語テキスト\" on the same line before the site",
+    "`é` put at the start of the string literal that contains / precedes the site on its line",
+    "`日本` put at the start of the string literal that contains / precedes the site on its line",
+    "bad escape with a non-ASCII escaped character: `\\é` instead of `\\q`",
 ];
+
+/// The single-line `"…"` / `'…'` literal of the mutated text that the in-literal variants fill: the last one that starts
+/// on the site's line at or before the site (the site is inside it, or after it on the same line). Returns the byte
+/// offset of the literal's first content character.
+fn target_literal(m: &ErrMut) -> Option<usize> {
+    let t = &m.text;
+    let lo = m.lo.min(t.len());
+    let line_start = t[..lo].rfind('\n').map(|i| i + 1).unwrap_or(0);
+    tu::tokenize(t)
+        .iter()
+        .filter(|k| {
+            let txt = &t[k.lo..k.hi];
+            let q = txt.chars().next();
+            k.kind == tu::TK::Str
+                && k.lo >= line_start
+                && k.lo <= lo
+                && k.hi - k.lo >= 2
+                && !txt.starts_with("\"\"\"")
+                && !txt.contains('\n')
+                && txt.ends_with(|c| Some(c) == q)
+        })
+        .last()
+        .map(|k| k.lo + 1)
+}
+
+/// does prefix variant `k` exist for this mutation?
+fn applicable(m: &ErrMut, k: usize) -> bool {
+    match k {
+        0..=6 => true,
+        7 | 8 => target_literal(m).is_some(),
+        _ => m.kind == "bad-escape",
+    }
+}
+
+/// number of variants of one mutation (closed form of `applicable`)
+fn n_variants(m: &ErrMut) -> usize {
+    7 + 2 * target_literal(m).is_some() as usize + (m.kind == "bad-escape") as usize
+}
 
 fn splice(t: &str, lo: usize, hi: usize, with: &str) -> String {
     format!("{}{}{}", &t[..lo], with, &t[hi..])
@@ -66,6 +110,18 @@ fn variant(m: &ErrMut, k: usize) -> (String, usize, usize) {
             // first non-blank column of the site's line, but never after the site
             let indent = t[line_start..].chars().take_while(|c| *c == ' ' || *c == '\t').count();
             ((line_start + indent).min(lo), if k == 5 { "\"é\"; " } else { "\"日本語テキスト\"; " })
+        }
+        7 | 8 => {
+            let at = target_literal(m).expect("variant 7/8 only where a literal exists");
+            let ins = if k == 7 { "é" } else { "日本" };
+            // the literal starts at or before the site: the site's start moves only if the literal ends before it
+            let new_lo = if at <= m.lo { m.lo + ins.len() } else { m.lo };
+            return (splice(t, at, at, ins), new_lo, m.hi + ins.len());
+        }
+        9 => {
+            // the mutation put `\q` directly after the opening quote at m.lo
+            assert!(m.kind == "bad-escape" && t[m.lo + 1..].starts_with("\\q"));
+            return (splice(t, m.lo + 2, m.lo + 3, "é"), m.lo, m.hi + 1);
         }
         _ => unreachable!(),
     };
@@ -142,6 +198,7 @@ fn judge(out: &mut UnitOut, origin: &str, m: &ErrMut, k: usize) {
     }
     out.evaluations += 1;
     out.count(&format!("cases of kind {}", m.kind), 1);
+    out.count(&format!("cases of variant #{k}"), 1);
     let a = ascii_twin(&v);
     let pure_ascii = a == v;
     let input_key = format!("input:{}", hkey(&v));
@@ -344,7 +401,17 @@ impl Prop for C33 {
         plan(tier).len()
     }
     fn expected_evaluations(&self, tier: Tier) -> Option<u64> {
-        Some(plan(tier).iter().map(|(_, lo, hi)| ((hi - lo) * NVAR) as u64).sum())
+        // 7 prefix variants of every mutation, + 2 where a string literal contains / precedes the site, + 1 for a bad escape
+        let c = tu::corpus();
+        let mut n = 0u64;
+        let mut cache: Option<(usize, Vec<ErrMut>)> = None;
+        for &(f, lo, hi) in plan(tier) {
+            if cache.as_ref().map(|x| x.0) != Some(f) {
+                cache = Some((f, error_mutations(&c[f].text, &|_| false)));
+            }
+            n += cache.as_ref().unwrap().1[lo..hi].iter().map(|m| n_variants(m) as u64).sum::<u64>();
+        }
+        Some(n)
     }
     fn run_unit(&self, tier: Tier, unit: usize, out: &mut UnitOut) {
         let (f, lo, hi) = plan(tier)[unit];
@@ -368,6 +435,9 @@ impl Prop for C33 {
         let muts = error_mutations(&file.text, &is_use);
         for mi in lo..hi.min(muts.len()) {
             for k in 0..NVAR {
+                if !applicable(&muts[mi], k) {
+                    continue;
+                }
                 if !out.begin_case((mi * NVAR + k) as u64) {
                     continue;
                 }
@@ -385,7 +455,8 @@ impl Prop for C33 {
         format!(
             "base programs = the 5 hand-written non-ASCII programs + the {} shortest corpus programs within the cost budget (≤ {} bytes; corpus as in C04); every applicable single error mutation at every site \
              (rename identifier to `zzundef`, `.name` to `.zzfield`, literal of another type, delete a single-line `->` arm, `x = x` after `let x`, drop last / add one call argument, add `zzarg = 0`, delete one token, `\\q` into a string literal): \
-             {} erroneous programs × {} prefix variants {:?}; each text and its ASCII twin (non-ASCII char → `@`) analysed with check_lsp; every diagnostic's primary range must be start ≤ end ≤ file length, on char boundaries, \
+             {} erroneous programs × up to {} variants {:?} (the first 7 for every mutation; the two in-literal variants where a single-line string literal starts on the site's line at or before the site; \
+             the non-ASCII escaped character for the bad-escape mutation); each text and its ASCII twin (non-ASCII char → `@`) analysed with check_lsp; every diagnostic's primary range must be start ≤ end ≤ file length, on char boundaries, \
              and cover the same chars as the twin's; weak locality only for rename-of-a-use and bad-escape on pure-ASCII texts. \
              Non-trivial = comparable pair with non-ASCII text before the end of some main-file diagnostic (distinct by text hash)",
             fs.len() - 5.min(fs.len()),
